@@ -99,6 +99,7 @@ macro_rules! channel_reader_harness {
     ($($name:ident, $script:expr, $room:expr;)*) => {$(
         /// @prop C04
         /// @tier quick
+        /// @covers any
         /// @fn rch::base::io::ChannelBytesReader::read
         /// @bounds streamed item of two chunks (3 + 2 bytes) followed by end of stream, or one chunk followed by the failure marker; read size per harness (1, 2, 8 bytes)
         /// @outside the tasks that feed the channel and the deserializer that reads from it (serde, spawn_blocking)
